@@ -362,19 +362,22 @@ def impl(case):
             for i in range(L):
                 shp = psi.A[i].shape
                 n = int(np.prod(shp))
-                M = np.zeros((n, n), dtype=complex)
+                # all columns are computed first and kept alive, then assembled (results of successive calls must not share storage)
+                cols = []
                 for k in range(n):
                     e = np.zeros(n, dtype=dt); e[k] = 1
-                    M[:, k] = ptn.apply_local_hamiltonian(lbs[i], br[i], op.A[i], e.reshape(shp)).reshape(-1)
+                    cols.append(ptn.apply_local_hamiltonian(lbs[i], br[i], op.A[i], e.reshape(shp)))
+                M = np.stack([c.reshape(-1) for c in cols], axis=1).astype(complex) if n else np.zeros((0, 0), dtype=complex)
                 H1.append(enc(M))
             r['herm1'] = H1
             Hb = []
             for i in range(1, L):
                 D = psi.A[i].shape[1]
-                M = np.zeros((D * D, D * D), dtype=complex)
+                cols = []
                 for k in range(D * D):
                     e = np.zeros(D * D, dtype=dt); e[k] = 1
-                    M[:, k] = ptn.apply_local_bond_contraction(lbs[i], br[i - 1], e.reshape((D, D))).reshape(-1)
+                    cols.append(ptn.apply_local_bond_contraction(lbs[i], br[i - 1], e.reshape((D, D))))
+                M = np.stack([c.reshape(-1) for c in cols], axis=1).astype(complex) if D else np.zeros((0, 0), dtype=complex)
                 Hb.append(enc(M))
             r['hermb'] = Hb
             H2 = []
@@ -384,10 +387,11 @@ def impl(case):
                 if n > 40:
                     H2.append(None)
                     continue
-                M = np.zeros((n, n), dtype=complex)
+                cols = []
                 for k in range(n):
                     e = np.zeros(n, dtype=dt); e[k] = 1
-                    M[:, k] = ptn.apply_local_hamiltonian(lbs[i], br[i + 1], mW[i], e.reshape(shp)).reshape(-1)
+                    cols.append(ptn.apply_local_hamiltonian(lbs[i], br[i + 1], mW[i], e.reshape(shp)))
+                M = np.stack([c.reshape(-1) for c in cols], axis=1).astype(complex) if n else np.zeros((0, 0), dtype=complex)
                 H2.append(enc(M))
             r['herm2'] = H2
     except Exception as e:   # a direct call failed: visible to prop and to the correspondence
